@@ -29,6 +29,7 @@ FAULT_KINDS = (
     "noack",       # nothing at all
     "badack",      # garbled acknowledge (NAK), then nothing
     "io_read",     # arg errno: ACK, then the read of the response raises IOError(errno)
+    "io_ack",      # arg errno: the read of the ACK (first read after the command) raises IOError(errno)
     "io_write",    # arg errno: the write of the command raises IOError(errno)
     "short",       # arg n: response truncated to its first n bytes (n < 0: drop -n bytes from the end)
     "badsum",      # data checksum off by one
@@ -257,6 +258,8 @@ class SimPn53x(object):
             return [ACK]
         if k == "io_read":
             return [ACK, ("raise", f.arg)]
+        if k == "io_ack":
+            return [("raise", f.arg)]
         if k == "errframe":
             return [ACK, ERR]
         if k == "raw":
